@@ -370,9 +370,9 @@ Proof.
   - cbn [marked]. rewrite E. apply andb_false_r.
 Qed.
 
-Lemma cur_rules_ok : rules_ok cur_rules.
+Lemma orig_rules_ok : rules_ok orig_rules.
 Proof.
-  constructor; cbn [rm_phasing chg_order unset_hp cur_rules].
+  constructor; cbn [rm_phasing chg_order unset_hp orig_rules].
   - intros [|] c; cbn; [apply unphase_call_other|reflexivity].
   - intros [|] c; cbn; [apply unphase_call_gt_none|tauto].
   - intros [|] c; cbn; [apply unphase_call_multiset|apply gt_multiset_eqb_refl].
@@ -1026,7 +1026,7 @@ Qed.
 (* the current code: in a target call only GT, the phased flag and the tag's own key can differ;
    a record of a write() call without targets is written as it is *)
 Theorem write_frames_cur cf plan input out :
-  plan_wf plan -> map fst plan = runs input -> phase_writer cf cur_rules plan input = Ok out ->
+  plan_wf plan -> map fst plan = runs input -> phase_writer cf orig_rules plan input = Ok out ->
   Forall2 (fun a o =>
      length (calls o) = length (calls (fst a)) /\
      (snd a = [] -> calls o = calls (fst a) /\ ps_key o = ps_key (fst a)) /\
@@ -1042,10 +1042,10 @@ Proof.
   destruct (step_rel_columns _ _ _ _ _ ND Hs) as [L [Hnil [prev Hc]]].
   split; [exact L|]. split; [exact Hnil|].
   intros i c c' Hx Hy. specialize (Hc _ _ Hx).
-  assert (Hrm : forall x, other (rm_phasing cur_rules (tag cf) x) = other x /\
-                          pq (rm_phasing cur_rules (tag cf) x) = pq x /\
-                          hp (rm_phasing cur_rules (tag cf) x) = hp x /\
-                          ps (rm_phasing cur_rules (tag cf) x) = ps x).
+  assert (Hrm : forall x, other (rm_phasing orig_rules (tag cf) x) = other x /\
+                          pq (rm_phasing orig_rules (tag cf) x) = pq x /\
+                          hp (rm_phasing orig_rules (tag cf) x) = hp x /\
+                          ps (rm_phasing orig_rules (tag cf) x) = ps x).
   { intros x. cbn. destruct (tag cf); cbn; [|auto]. unfold unphase_call.
     destruct (gt x) as [l|]; [|auto]. destruct (all_called l); cbn; auto. }
   destruct (target_of ts i) as [t|] eqn:Et.
@@ -1055,7 +1055,7 @@ Proof.
     destruct (skip cf ts prev r).
     + rewrite Hc in Hy. inversion Hy. subst c'. repeat split; auto; discriminate.
     + destruct Hc as [c2 [Hu Hn]]. rewrite Hn in Hy. inversion Hy. subst c2.
-      destruct (update_call_spec _ _ _ _ _ _ cur_rules_ok Hu) as [U1 [U2 [_ [_ [U5 [U6 _]]]]]].
+      destruct (update_call_spec _ _ _ _ _ _ orig_rules_ok Hu) as [U1 [U2 [_ [_ [U5 [U6 _]]]]]].
       repeat split; try congruence; try discriminate.
       * intros Ht. rewrite (U5 Ht). exact R3.
       * intros Ht. rewrite (U6 Ht). exact R4.
@@ -1281,4 +1281,60 @@ Proof.
   destruct (dict_get p (t_comp t)); [|eauto].
   match goal with |- context [if ?b then _ else _] => destruct b end; cbn [fst snd];
   match goal with |- context [if ?b then _ else _] => destruct b end; eauto.
+Qed.
+
+(* ------------------------------------------------------------------ frames of the code as it is now *)
+Lemma fix_rm_fields tg c :
+  other (fix_rm tg c) = other c /\ ps (fix_rm tg c) = None /\ pq (fix_rm tg c) = None /\
+  (hp (fix_rm tg c) = None \/ hp (fix_rm tg c) = Some [HPdot]).
+Proof.
+  unfold fix_rm. destruct (clear_hp_facts (set_ps (unphase_call c) None)) as [O [_ [_ [S _]]]].
+  cbn [other ps pq hp set_pq]. rewrite O, S. cbn [other ps set_ps]. rewrite unphase_call_other.
+  repeat split; try reflexivity.
+  unfold clear_hp. destruct (hp (set_ps (unphase_call c) None)) eqn:E; cbn; rewrite ?E; auto.
+Qed.
+
+(* In a target call only the phase encoding changes: GT (separator and order; the alleles only in the
+   genotype-change branch, see alleles_preserved), PS, HP and PQ.  Precisely: every other FORMAT field is
+   unchanged, PQ is cleared, and the key of the other encoding is cleared (PS under --tag HP; HP under
+   --tag PS, to '.' if the record has the key). Calls of non-target samples, and all calls of a write()
+   without targets, are unchanged. *)
+Theorem write_frames_fix cf plan input out :
+  plan_wf plan -> map fst plan = runs input -> phase_writer cf fix_rules plan input = Ok out ->
+  Forall2 (fun a o =>
+     length (calls o) = length (calls (fst a)) /\
+     (snd a = [] -> calls o = calls (fst a) /\ ps_key o = ps_key (fst a)) /\
+     forall i c c', nth_error (calls (fst a)) i = Some c -> nth_error (calls o) i = Some c' ->
+       (is_target (snd a) i = false -> c' = c) /\
+       (is_target (snd a) i = true ->
+          other c' = other c /\ (gt c' = None <-> gt c = None) /\ pq c' = None /\
+          (tag cf = TagPS -> hp c' = None \/ hp c' = Some [HPdot]) /\
+          (tag cf = TagHP -> ps c' = None)))
+    (annotate plan input) out.
+Proof.
+  intros W Hp H.
+  eapply Forall2_impl; [|apply (writer_forall2 _ _ _ _ _ W Hp H)].
+  intros [r ts] o [ND Hs]. cbn [fst snd] in *.
+  destruct (step_rel_columns _ _ _ _ _ ND Hs) as [L [Hnil [prev Hc]]].
+  split; [exact L|]. split; [exact Hnil|].
+  intros i c c' Hx Hy. specialize (Hc _ _ Hx).
+  destruct (fix_rm_fields (tag cf) c) as [R1 [R2 [R3 R4]]].
+  pose proof (rk_gt_none _ fix_rules_ok (tag cf) c) as Rg. cbn [rm_phasing fix_rules] in Rg.
+  destruct (target_of ts i) as [t|] eqn:Et.
+  - assert (Hit : is_target ts i = true).
+    { destruct (is_target ts i) eqn:E; [reflexivity|]. apply target_of_none_iff in E. congruence. }
+    rewrite Hit. split; [discriminate|]. intros _.
+    destruct (skip cf ts prev r).
+    + cbn [rm_phasing fix_rules] in Hc. rewrite Hc in Hy. inversion Hy. subst c'.
+      repeat split; auto; try apply Rg.
+    + destruct Hc as [c2 [Hu Hn]]. rewrite Hn in Hy. inversion Hy. subst c2.
+      cbn [rm_phasing fix_rules] in Hu.
+      destruct (update_call_spec _ _ _ _ _ _ fix_rules_ok Hu) as [U1 [U2 [U3 [U4 [U5 [U6 _]]]]]].
+      split; [congruence|]. split.
+      { split; intros G; [exfalso; exact (U4 G)|]. exfalso. apply U3. apply Rg. exact G. }
+      split; [congruence|]. split.
+      * intros Ht. rewrite (U5 Ht). exact R4.
+      * intros Ht. rewrite (U6 Ht). exact R2.
+  - apply target_of_none_iff in Et. rewrite Et. rewrite Hc in Hy. inversion Hy. subst c'.
+    split; [reflexivity|discriminate].
 Qed.
